@@ -9,6 +9,9 @@ import BV.C13.LemmasWitness
 import BV.C13.LemmasHeight
 import BV.C13.LemmasCost
 import BV.C13.LemmasMtp
+import BV.C13.LemmasStore
+import BV.C13.LemmasBip68
+import BV.C13.LemmasPush
 import BV.Generated.C13
 namespace BV.C13
 open Spec
@@ -23,6 +26,15 @@ theorem store_root_eq_spec {α : Type} (H : α → α → α) (zero : α) (l : L
 /-- `CalcMerkleRoot` (rolling, O(log n) roots): never panics and returns the protocol root. -/
 theorem rolling_root_eq_spec {α : Type} (H : α → α → α) (zero : α) (l : List α) (h : l ≠ []) :
     rollingRoot H zero l = some (mroot H zero l) := Lemmas.rollingRoot_eq_spec H zero l h
+
+/-- The WHOLE store (not only its last slot) is the protocol tree level by level — the leaves, then
+    `pairUp` of them, … — each level nil-padded to its power of two; `2^k` is the least power ≥ n. -/
+theorem store_eq_levels {α : Type} (H : α → α → α) (zero : α) (l : List α) (h : l ≠ []) :
+    ∃ k, l.length ≤ 2^k ∧ (k = 0 ∨ 2^(k-1) < l.length) ∧ buildStore H zero l = Lemmas.specLevels H k l :=
+  Lemmas.buildStore_eq_levels H zero l h
+
+example : buildStore (fun a b : Nat => 10 * a + b) 0 [1, 2, 3] =
+    [some 1, some 2, some 3, none, some 12, some 33, some 153] := by decide
 
 /-- Both paths on EVERY list of 0..N leaves (the empty list after the `fix:` guard). -/
 theorem merkle_paths_eq_spec {α : Type} (H : α → α → α) (zero : α) (l : List α) :
@@ -85,6 +97,14 @@ theorem validateCommitment_iff (dhash : Bytes → Bytes) (root : Bytes) (cb : Tx
       · by_cases hd : dhash (root ++ nonce) = c <;> simp [hl, hd]
       · simp [hl]
     | _ :: _ :: _ => simp
+
+/-- the commitment check run with the real rolling computation of the witness root is the check
+    against the protocol root over `0 :: wtxids` (never a panic) -/
+theorem validateCommitment_uses_protocol_root {τ : Type} (dhash : Bytes → Bytes) (H : Bytes → Bytes → Bytes)
+    (zero : Bytes) (txid wtxid : τ → Bytes) (cb : τ) (rest : List τ) (txs : List Tx) :
+    validateWitnessCommitment dhash (rollingRoot H zero (leafHashes txid wtxid zero true (cb :: rest))) txs =
+      validateWitnessCommitment dhash (some (mroot H zero (zero :: rest.map wtxid))) txs := by
+  rw [(witness_root_eq_spec H zero txid wtxid cb rest).2]
 
 /-- an empty block / a coinbase without inputs is rejected before anything is hashed -/
 theorem validateCommitment_degenerate (dhash : Bytes → Bytes) (root : Option Bytes) (cb : Tx) (rest : List Tx)
@@ -159,6 +179,10 @@ theorem witness_sigops (sig pk : Bytes) (wit : List Bytes) (hs : sig.length < 2^
   Lemmas.witnessSigOps_eq_spec sig pk wit hs hw
 
 example : witnessSigOps [] ([0x00, 0x14] ++ List.replicate 20 7) [] = 1 := by decide
+
+/-- `IsPushOnlyScript` = the protocol's `IsPushOnly` (every instruction parses and is ≤ OP_16) -/
+theorem pushOnly_eq_spec (s : Bytes) (hs : s.length < 2^31) :
+    isPushOnly s = (pushOnlyLast [] s).isSome := Lemmas.isPushOnly_eq_spec s hs
 
 /-- unified cost = 4·(legacy + P2SH) + witness, when every spent output is available -/
 theorem sigOpCost_def (t : Tx) (utxos : List Utxo) (p w : Nat)
@@ -289,6 +313,14 @@ theorem sequenceLock_prev_block_mtp (times : List Int) (seq : Nat) (h : Int) (hh
   · simp only [lockInputOf, if_true]
     congr 1
     omega
+
+/-- BIP68 end to end: the locks computed for a transaction are satisfied by a block at height `bh`
+    (previous block's median time `mtp`) iff EVERY input is individually mature: disabled, or (time
+    type) prevMtp + 512·v ≤ mtp, or (height type) inputHeight + v ≤ bh. -/
+theorem locksSatisfied_iff_inputs_mature (ins : List SeqInput) (bh mtp : Int) (hbh : 0 ≤ bh) (hm : 0 ≤ mtp) :
+    locksSatisfied (sequenceLocks true ins).1 (sequenceLocks true ins).2 bh mtp = true ↔
+      ∀ i ∈ ins, Lemmas.inputMature i bh mtp :=
+  Lemmas.locksSatisfied_iff_all_inputs ins bh mtp hbh hm
 
 /-- `LockTimeToSequence` produces a BIP68 sequence number: type flag set, disable flag clear, and the
     16-bit field holds the lock in 512-second units (for every lock that fits: < 2^25 seconds), so
